@@ -327,6 +327,49 @@ fn head_case(rng: &mut Rng, all_prefixes: bool, redirect_focus: bool, rec: &mut 
     }
 }
 
+/// Short heads offered after other looks on the same flow: incomplete looks at a late 100 (which is then
+/// passed over), incomplete looks at the head itself in growing or SHRINKING windows. What a look saw
+/// before must not matter for what this window holds.
+fn after_other_looks_case(idx: u64, rec: &mut Rec) {
+    const HEADS: [&[u8]; 4] = [b"HTTP/1.1 200 OK\r\n\r\n", b"HTTP/1.1 204\r\n\r\n", b"HTTP/1.0 404 \r\nA:b\r\n\r\n", b"HTTP/1.1 500 Internal Server Error\r\nServer: s\r\n\r\n"];
+    let head = HEADS[(idx % 4) as usize];
+    let interim = b"HTTP/1.1 100 Continue\r\n\r\n";
+    let split = 1 + (idx / 4 % 24) as usize; // where the late 100 is cut
+    let with_late_100 = idx / 96 % 2 == 0;
+    let mut f = match recv_flow_via(if with_late_100 { Route::ExpectGaveUp } else { Route::Plain("GET") }, b"") {
+        Some(f) => f,
+        None => return rec.fail("C05/setup", "route".into()),
+    };
+    if with_late_100 {
+        rec.call();
+        match f.try_response(&interim[..split]) {
+            Ok((0, None)) => {}
+            other => return rec.fail("C05/error-on-strict-prefix", format!("prefix {} of the late 100: {:?}", split, other.map(|(n, r)| (n, r.is_some())))),
+        }
+        rec.call();
+        match f.try_response(interim) {
+            Ok((n, None)) if n == interim.len() => rec.cov("after-other-looks/late-100-in-two-looks"),
+            other => return rec.fail("C05/late-100-not-passed-over", format!("{:?}", other.map(|(n, r)| (n, r.is_some())))),
+        }
+    } else {
+        // a longer incomplete window first (another head's beginning), then the short complete one
+        let long = b"HTTP/1.1 200 OK\r\nX-Long-Field-Name-That-Goes-On: and a value that goes on as w";
+        rec.call();
+        match f.try_response(&long[..long.len().min(20 + split * 2)]) {
+            Ok((0, None)) => rec.cov("after-other-looks/longer-incomplete-window-first"),
+            other => return rec.fail("C05/error-on-strict-prefix", format!("{:?}", other.map(|(n, r)| (n, r.is_some())))),
+        }
+    }
+    rec.call();
+    match f.try_response(head) {
+        Ok((n, Some(_))) if n == head.len() => {}
+        other => rec.fail(
+            "C05/complete-head-not-accepted",
+            format!("{:?} offered after {}: {:?}", crate::json::esc(head), if with_late_100 { format!("a late 100 seen in two looks (cut at {})", split) } else { "a longer incomplete window".to_string() }, other.map(|(n, r)| (n, r.is_some()))),
+        ),
+    }
+}
+
 fn limit_case(rng: &mut Rng, rec: &mut Rec) {
     // 128 accepted, 129.. rejected
     let nf = *rng.pick(&[126usize, 127, 128, 128, 129, 129, 130, 140, 200]);
@@ -371,6 +414,7 @@ impl Property for P {
             },
             Workload::new("redirect-cuts", tier.pick(1_500, 200_000), false, "3xx heads with a Location followed by more fields, every prefix"),
             Workload::new("field-limit", tier.pick(300, 20_000), false, "heads with 126..200 fields"),
+            Workload::new("after-other-looks", 192, true, "four short heads offered after a late 100 seen in two looks (every cut), or after a longer incomplete window"),
         ]
     }
     fn run_case(&self, wl: &str, idx: u64, seed: u64, rec: &mut Rec) {
@@ -379,6 +423,7 @@ impl Property for P {
             "heads" => head_case(&mut rng, false, false, rec),
             "heads-all-prefixes" => head_case(&mut rng, true, false, rec),
             "redirect-cuts" => head_case(&mut rng, true, true, rec),
+            "after-other-looks" => after_other_looks_case(idx, rec),
             _ => limit_case(&mut rng, rec),
         }
     }
